@@ -215,15 +215,15 @@ def configs(tier):
         lss = [(5, 2), (6, 2), (7, 3), (8, 8), (4, 1), (3, 3), (9, 4)]
         full = {(5, 2), (6, 2), (4, 1)}
     else:
-        lss = [(L, S) for L in range(2, 10) for S in range(1, L + 1)] + [(12, 5), (16, 6)]
-        full = set(lss)
+        lss = [(L, S) for L in range(1, 11) for S in range(1, L + 1)] + [(12, 5), (16, 6), (25, 10)]
+        full = set(ls for ls in lss if ls[0] <= 12)
     for L, S in lss:
         for style, kaldi in styles:
             c = dict(kind="stft", bank="tri", L=L, S=S, style=style, kaldi=kaldi,
                      window="hamming", pad=True, energy=True, f32=True)
             out.append(c)
             if (L, S) in full:
-                out.append(dict(c, alphabet="full", Nmax=4 * L))
+                out.append(dict(c, alphabet="full", Nmax=(4 if tier == "quick" else 5) * L))
     for style, kaldi in styles:
         out.append(dict(kind="stft", bank="tri", L=6, S=2, style=style, kaldi=kaldi, window="hamming",
                         pad=False, energy=True, f32=True, stream_dtype="float32"))
